@@ -231,11 +231,33 @@ async fn run_point<B: Backend>(b: &B, prog: &Arc<Program>, seed: u64, target: &T
                 prerepair_tfc(&t, &crate::eng::topo_order(prog_ref, &all)).await;
                 hooks::set_yield(YieldPolicy::AllPre, seed ^ k as u64);
             }
+            // every other point: a second caller asks for the same query from its own tracked
+            // engine while the target is in flight (it runs whenever the target is suspended
+            // and ends up waiting for the computation the target owns)
+            let waiter = if k % 2 == 1 && k != usize::MAX {
+                let (e, root) = (engine.clone(), *root);
+                Some(tokio::spawn(async move {
+                    let t = e.tracked().await;
+                    query_node(&t, root).await
+                }))
+            } else {
+                None
+            };
             let (res, p) = cancel_after(starved(query_node(&t, *root), true), k, eager).await;
             polls = p;
             // (the value of a completed target is C01's business, see C01-F1)
             completed = res.is_some();
             drop(t);
+            if let Some(w) = waiter {
+                // the owner is gone: whoever waited for it must be woken and finish the work
+                match bounded(w, 20).await {
+                    Ok(Ok(_)) => {}
+                    Ok(Err(e)) if e.is_panic() => viol.push(("waiter-of-cancelled-query-panicked".into(), Json::obj().set("root", format!("{root:?}")))),
+                    Ok(Err(_)) => {}
+                    Err(Wait::Deadlock) => viol.push(("waiter-of-cancelled-query-never-completes".into(), Json::obj().set("root", format!("{root:?}")).set("cancelled_after_polls", k as u64))),
+                    Err(_) => inconclusive = Some("waiter of the cancelled query still busy after 20 s".into()),
+                }
+            }
         }
         Target::OpenSession => {
             let (res, p) = cancel_after(starved(engine.input_session(), true), k, eager).await;
